@@ -140,7 +140,7 @@ class Module:
         nets = list(self.inputs)
         ng = rng.randint(1, 7)
         for i in range(ng):
-            base = rng.choice(["w", "n", "g"]) + str(i)
+            base = rng.choice(["w", "n", "g", "_n"]) + str(i)       # `_n3`: identifiers may start with an underscore
             net = rng.choice(adv) if rng.random() < adversarial else base
             if adversarial and rng.random() < 0.15:
                 # a net named exactly like one of the gates the transformer synthesises for an earlier expression
@@ -188,7 +188,7 @@ class Module:
                     dup = rng.choice(ops)
                     for _ in range(rng.randint(1, 3)):       # given 2, 3 or 4 times
                         ops.insert(rng.randrange(len(ops) + 1), dup)
-                self.stmts.append(("gate", t, f"g_{i}" if rng.random() < 0.8 else f"U{i}", net, ops))
+                self.stmts.append(("gate", t, rng.choice([f"g_{i}", f"g_{i}", f"g_{i}", f"U{i}", f"_{i}_"]), net, ops))
                 self.defs[net] = ("gate", t, ops)
             nets.append(net)
         cands = [n for n in nets if n not in self.inputs]
